@@ -396,7 +396,7 @@ func c16Gen(r *rand.Rand, spec cfg.Spec, plainOnly bool) c16Doc {
 						b.WriteString(" [t" + ref(l) + "](u)")
 					case 2:
 						ctx = "image-alt"
-						b.WriteString(" ![i" + ref(l) + "](u)")
+						b.WriteString(" ![i" + ref(l) + "](" + []string{"u", "u", "", "<>", "u \"t\""}[r.Intn(5)] + ")")
 					case 3:
 						ctx = "code-span"
 						b.WriteString(" `c" + ref(l) + "`")
@@ -682,7 +682,7 @@ func replayC16(c *core.Ctx, v *core.Violation) (bool, string) {
 	return false, "footnote structure is consistent"
 }
 
-var c16Soup = []string{"[^a]", "[^a]", "[^b]", "[^1]", "[^a]: n\n", "[^b]: m\n", "[^1]: o\n", "\n[^a]: mka body\n", "\n\n", "\n", " ", "text ", "*", "**", "`", "![", "](u)", "[", "]", "](", "[l", "(u)", "![^a]", "![x[^a]](u)", "[t[^b]](u)",
+var c16Soup = []string{"[^a]", "[^a]", "[^b]", "[^1]", "[^a]: n\n", "[^b]: m\n", "[^1]: o\n", "\n[^a]: mka body\n", "\n\n", "\n", " ", "text ", "*", "**", "`", "![", "](u)", "[", "]", "](", "[l", "(u)", "![^a]", "![x[^a]](u)", "![y[^a]]()", "![z[^b]](<>)", "]()", "](<>)", "[t[^b]](u)",
 	"| h |\n|---|\n| [^a] |\n", "# h [^a]\n", "> [^a]: q\n", "- [^b]: l\n", "    cont\n", "    [^b]\n", "[^a]: see [^b]\n", "[^c]: see [^a]\n", "[^a]:\n", "[^]", "[^ ]: x\n", "[^a b]: y\n", "[^a b]", "[^A]", "\\[^a]", "[^a\\]]", "[^a]:n\n", "^", "[^a][^a]", "[^a]: [^a]\n", "<b>", "&amp;", "\x00", "é"}
 
 func runC16(c *core.Ctx) {
@@ -732,12 +732,14 @@ func runC16(c *core.Ctx) {
 // reference, numbering 1..m, unreferenced definitions leave no trace).
 func c16Graphs(c *core.Ctx, pool *cfg.Pool) {
 	labels := []string{"a", "b", "c"}
+	imgDest := "/u"
 	ref := func(kind int, l string) string {
 		switch kind {
 		case 1:
 			return " r[^" + l + "]"
 		case 2:
-			return " ![img[^" + l + "] alt](/u)"
+			// (the destination of the image is ordinary, empty, or empty in angle brackets: an image is an image whatever it points to)
+			return " ![img[^" + l + "] alt](" + imgDest + ")"
 		}
 		return ""
 	}
@@ -748,6 +750,7 @@ func c16Graphs(c *core.Ctx, pool *cfg.Pool) {
 			continue
 		}
 		x := g
+		imgDest = []string{"/u", "", "<>", "/u 'title'"}[(g/7)%4]
 		next := func() int { k := x % 3; x /= 3; return k }
 		var b strings.Builder
 		b.WriteString("body")
